@@ -22,7 +22,9 @@ Translated (regenerated on every check run, compared with the committed cache):
   type.c      size / signedness of the ty_* objects used above
 Pinned (hand-modelled in Model/Literals.lean, Model/Text.lean; the translator only checks that the source text still has
 the shape the hand model was written after, and raises ExtractError otherwise):
-  tokenize_string_literal, startswith, preprocess.c getStringKind / join_adjacent_string_literals, parse.c string_initializer.
+  startswith, parse.c string_initializer.
+Translated by strjoin.py into Gen/StrJoinGen.lean (no longer pinned here): tokenize_string_literal, preprocess.c getStringKind /
+  join_adjacent_string_literals, read_file's tail; the hand model of Model/Literals.lean is proved equal (C11_translated_join).
 """
 import re, hashlib
 from common import *
@@ -626,9 +628,14 @@ def gen_dispatch(src):
         if off != len(prefix):
             raise ExtractError(f'tokenize: char prefix {prefix!r} passes quote offset {off}')
         if m.group(5):
-            if m.group(5) != 'char':
+            # `cur->val` is int64_t: a cast to an unsigned N-bit type and back is the value modulo 2^N, i.e. `& (2^N - 1)`
+            unsigned_casts = {'uint32_t': 0xFFFFFFFF, 'uint16_t': 0xFFFF, 'uint8_t': 0xFF}
+            if m.group(5) == 'char':
+                post = '.castChar'
+            elif m.group(5) in unsigned_casts:
+                post = f'.mask 0x{unsigned_casts[m.group(5)]:X}'
+            else:
                 raise ExtractError(f'tokenize: cast ({m.group(5)}) on a character constant not understood')
-            post = '.castChar'
         elif m.group(6):
             post = f'.mask 0x{c_int(m.group(6)):X}'
         else:
@@ -1217,12 +1224,9 @@ def gen_ppnum(repo, src):
 
 
 def check_pins(repo, src):
-    for name, (sig, text) in PINS_TOKENIZE.items():
-        pin(strip_comments(function_body(src, sig, name)), text, f'tokenize.c {name}')
-    pp = strip_comments(read(repo, 'preprocess.c'))
-    pin(function_body(pp, r'^static\s+StringKind\s+getStringKind\s*\(Token \*tok\)\s*\{', 'getStringKind'), PIN_GET_STRING_KIND, 'preprocess.c getStringKind')
-    pin(function_body(pp, r'^static\s+void\s+join_adjacent_string_literals\s*\(Token \*tok\)\s*\{', 'join_adjacent_string_literals'), PIN_JOIN,
-        'preprocess.c join_adjacent_string_literals')
+    # tokenize_string_literal, getStringKind and join_adjacent_string_literals are no longer pinned: strjoin.py translates them on every
+    # run and `C11_translated_join` proves the hand model equal to the translation (PINS_TOKENIZE / PIN_GET_STRING_KIND / PIN_JOIN above
+    # record the text the hand model was written after)
     ps = strip_comments(read(repo, 'parse.c'))
     pin(function_body(ps, r'^static\s+void\s+string_initializer\s*\(Token \*\*rest, Token \*tok, Initializer \*init\)\s*\{', 'string_initializer'),
         PIN_STRING_INIT, 'parse.c string_initializer')
